@@ -558,6 +558,10 @@ func runC01(r *Run) {
 	c01Websocket(r)
 	c01DemuxAfterCancel(r)
 	topoSweep(r, "unary")
+	// a call abandoned with unread envelopes, then the next call: it gets ITS handler's reply (c05b.go)
+	if r.Want("backlog") {
+		c05Backlog(r)
+	}
 	sizes := []int{1, 2, 8, r.Scale(16, 64)}
 	perMode := r.Scale(0, 50000) // calls per topology and transport kind (quick: cycles below)
 	cycles := r.Scale(8, 0)
